@@ -992,6 +992,34 @@ func ExactRangeIntoBoundNode(q *Shape) bool {
 
 func init() {
 	Findings = append(Findings, Finding{"continuation-step-rejoins-carried-node", ContinuationStepIntoCarriedNode})
+	Findings = append(Findings, Finding{"pattern-predicate-constrains-bound-variable", PatternPredicateConstrainsBoundVariable})
+}
+
+// PatternPredicateConstrainsBoundVariable: a pattern predicate in which a node pattern restates a variable bound
+// outside the predicate AND carries kinds or a property map, `where not (a)-[:R]->(b:B)`. Binding a node pattern
+// to an existing variable adds its kind / property constraints to the constraints of the enclosing MATCH
+// (translate/node.go, the same path a repeated node pattern of a MATCH takes), so they filter the rows
+// unconditionally instead of being part of the predicate: wrong under NOT and OR, and whenever another disjunct
+// could admit the row. Shape: exactly that; not narrower, because a predicate used positively and conjunctively
+// happens to be equivalent.
+func PatternPredicateConstrainsBoundVariable(q *Shape) bool {
+	found := false
+	Visit(q.Model, func(n any) bool {
+		pp, ok := n.(*cypher.PatternPredicate)
+		if !ok || pp == nil {
+			return !found
+		}
+		for _, el := range pp.PatternElements {
+			if el == nil {
+				continue
+			}
+			if np, isNode := el.AsNodePattern(); isNode && np != nil && np.Variable != nil && np.Variable.Symbol != "" && (len(np.Kinds) > 0 || np.Properties != nil) {
+				found = true
+			}
+		}
+		return !found
+	})
+	return found
 }
 
 // ContinuationStepIntoCarriedNode: the third way to reach buildTraversalPatternStep without an expand-into decision
